@@ -2,13 +2,15 @@ import TTV.Props.C01
 import TTV.Spec.C02
 import TTV.Lemmas.RunRestore
 import TTV.Lemmas.RunRerun
+import TTV.Lemmas.RunOnce
 /-! # C02 — stages in order; every cleanup exactly once, LIFO; nothing left registered; patches undone;
 re-running the instance repeats the same sequence and outcome
 
 Same quantifier as C01 (`Props/C01.lean`): every program (any nesting of cleanups / fixtures / patches, any
 exception kinds in any stages, decorators, handler tables, flavours), every left-over `force_failure`, any
-number of repeated runs.  Hypothesis `wf p`: distinct stage ids, user handlers only for `Exception`
-subclasses, the initial attribute store is a dict (distinct attribute names). -/
+number of repeated runs.  Hypothesis `wf p` (`Spec/RunCommon.lean`): distinct stage ids, user handlers only for
+`Exception` subclasses, the initial attribute store is a dict (distinct attribute names) — its further
+conjuncts (about detail names and content identities) concern C05 only. -/
 namespace TTV.Props.C02
 open TTV.Run TTV.Spec.Run TTV.Spec.C02
 
@@ -186,6 +188,19 @@ theorem C02_cleanups_once (p : Program) (ff0 : Bool) (hwf : wf p = true) (hskip 
   have h2 := (runCore_inv2 p ff0 hwf).once
   rw [(runCore_facts p ff0 hwf hskip).stack] at h2
   simpa [pendingRan] using h2
+
+/-- C02 (at most once, on the trace): no stage — setUp, test method, tearDown, any cleanup at any depth — occurs
+twice in the stage sequence of a run (with `C02_lifo`: every registered cleanup stage runs exactly once). -/
+theorem C02_each_stage_once (p : Program) (ff0 : Bool) (hwf : wf p = true) : (stageIds (runOnce p ff0)).Nodup := by
+  cases hskip : p.skipDeco with
+  | some r =>
+    have := C01.clause_stages p ff0 hwf
+    simp only [Spec.C01.cStages, hskip, Option.isSome_some, if_true, List.isEmpty_iff] at this
+    rw [this]; exact List.nodup_nil
+  | none =>
+    obtain ⟨o, d, r, sel, _, hshape⟩ := runOnce_shape p ff0 hwf hskip
+    rw [hshape, (reads_of p ff0 hwf hskip _ _ _ _ _ _).ids]
+    exact runCore_execd_nodup p ff0 hwf
 
 /-- C02 (LIFO): the sequence of executed stages is accepted by the spec's stack machine — each executed
 cleanup is, at that moment, the most recently registered pending one, and none is pending at the end. -/
